@@ -149,6 +149,8 @@ func (v *Val) Canon() string {
 		return strconv.Quote(v.S)
 	case VInt:
 		return strconv.FormatInt(v.I, 10)
+	case VNull:
+		return "null"
 	case VBool:
 		return strconv.FormatBool(v.B)
 	case VFloat:
